@@ -541,9 +541,14 @@ def gen_oracle_form(rng):
             f = rng.choice(["cities", "fruits", "geo"]) + rng.choice([".csv", ".xml", ".geojson"])
             row["type"] = f"select_one_from_file {f}"
             sel["file"] = f
-            if rng.random() < 0.3:
-                row["parameters"] = "value=vid label=vlabel"
-                sel["refs"] = ("vid", "vlabel")
+            if rng.random() < 0.4:
+                # parameter names in any case and order, separated by space, comma or semicolon; the VALUES keep their case
+                vref, lref = rng.choice([("vid", "vlabel"), ("SiteCode", "SiteName"), ("WardID", "wardName")])
+                kv = [(rng.choice(["value", "Value", "VALUE"]), vref), (rng.choice(["label", "Label", "LABEL"]), lref)]
+                if rng.random() < 0.5:
+                    kv.reverse()
+                row["parameters"] = rng.choice([" ", ", ", ";", " ; "]).join(f"{k}={v}" for k, v in kv)
+                sel["refs"] = (vref, lref)
             stem, ext = f.rsplit(".", 1)
             add_source(stem, ("jr://file-csv/" if ext == "csv" else "jr://file/") + f)
         elif variant == "external":
